@@ -401,3 +401,467 @@ theorem toks_escapeParts (f : Field) (h : ∀ p ∈ f, p.quoted = false → dang
       rw [toks_append _ (h p (List.mem_cons_self ..) hq'), ih']
 
 end ShVerif.C19
+
+namespace ShVerif.C19
+open ShVerif ShVerif.L3
+
+/-! ## no duplicates (patterns without an active `**`) -/
+
+/-- What a directory reader must satisfy: distinct, non-empty, slash-free names. -/
+def ReaderWF (rd : Reader) : Prop :=
+  ∀ p ents, rd p = .ok ents → (ents.map (·.1)).Nodup ∧ ∀ e ∈ ents, e.1 ≠ [] ∧ cSlash ∉ e.1
+
+theorem splitOn_slashfree (sep : Rune) (s : Str) : ∀ c ∈ splitOn sep s, sep ∉ c := by
+  induction s with
+  | nil => intro c hc; simp [splitOn] at hc; subst hc; simp
+  | cons x rest ih =>
+    intro c hc
+    simp only [splitOn] at hc
+    by_cases hx : x = sep
+    · simp only [hx, if_true, List.mem_cons] at hc
+      rcases hc with rfl | hc
+      · simp
+      · exact ih c hc
+    · simp only [hx, if_false] at hc
+      cases hsp : splitOn sep rest with
+      | nil => simp only [hsp, List.mem_singleton] at hc; subst hc; simp; exact fun h => hx h.symm
+      | cons h t =>
+        simp only [hsp, List.mem_cons] at hc
+        rcases hc with rfl | hc
+        · have := ih h (by rw [hsp]; exact List.mem_cons_self ..)
+          simp only [List.mem_cons, not_or]
+          exact ⟨fun h' => hx h'.symm, this⟩
+        · exact ih c (by rw [hsp]; exact List.mem_cons_of_mem _ hc)
+
+theorem split_unique : ∀ (a a' n n' : Str), cSlash ∉ n → cSlash ∉ n' →
+    a ++ cSlash :: n = a' ++ cSlash :: n' → a = a' ∧ n = n' := by
+  intro a
+  induction a with
+  | nil =>
+    intro a' n n' hn hn' h
+    cases a' with
+    | nil => simp at h; exact ⟨rfl, h⟩
+    | cons y ys =>
+      simp only [List.nil_append, List.cons_append, List.cons.injEq] at h
+      exfalso; apply hn; rw [h.2]; simp
+  | cons x xs ih =>
+    intro a' n n' hn hn' h
+    cases a' with
+    | nil =>
+      simp only [List.nil_append, List.cons_append, List.cons.injEq] at h
+      exfalso; apply hn'; rw [← h.2]; simp
+    | cons y ys =>
+      simp only [List.cons_append, List.cons.injEq] at h
+      obtain ⟨h1, h2⟩ := ih ys n n' hn hn' h.2
+      exact ⟨by rw [h.1, h1], h2⟩
+
+theorem endsSlash_true_iff {d : Str} : endsSlash d = true ↔ ∃ d0, d = d0 ++ [cSlash] := by
+  unfold endsSlash
+  constructor
+  · intro h
+    have : d.getLast? = some cSlash := by simpa using h
+    exact List.getLast?_eq_some_iff.mp this
+  · rintro ⟨d0, rfl⟩
+    simp
+
+theorem endsSlash_append {a b : Str} (hb : b ≠ []) : endsSlash (a ++ b) = endsSlash b := by
+  unfold endsSlash
+  rw [List.getLast?_append]
+  cases hbl : b.getLast? with
+  | none => exact absurd (List.getLast?_eq_none_iff.mp hbl) hb
+  | some x => simp
+
+theorem endsSlash_slashfree {b : Str} (hb : cSlash ∉ b) : endsSlash b = false := by
+  unfold endsSlash
+  cases hbl : b.getLast? with
+  | none => rfl
+  | some x =>
+    have hx : x ∈ b := List.mem_of_getLast? hbl
+    have : x ≠ cSlash := fun h => hb (h ▸ hx)
+    simp [this]
+
+theorem pathJoin2_S {a : Str} (b : Str) (h : endsSlash a = true) : pathJoin2 a b = a ++ b := by
+  have hne : a ≠ [] := by
+    obtain ⟨d0, rfl⟩ := endsSlash_true_iff.mp h
+    simp
+  simp [pathJoin2, hne, h]
+
+theorem pathJoin2_N {a : Str} (b : Str) (h1 : a ≠ []) (h2 : endsSlash a = false) :
+    pathJoin2 a b = a ++ cSlash :: b := by
+  simp [pathJoin2, h1, h2]
+
+/-- The three shapes a level of matches can have. -/
+inductive Shape | E | S | N
+  deriving DecidableEq
+
+def HasShape : Shape → Str → Prop
+  | .E, d => d = []
+  | .S, d => endsSlash d = true
+  | .N, d => d ≠ [] ∧ endsSlash d = false
+
+/-- Joining a non-empty slash-free name is injective in both arguments on one shape. -/
+theorem pathJoin2_inj {sh : Shape} {d d' n n' : Str} (hd : HasShape sh d) (hd' : HasShape sh d')
+    (hn : cSlash ∉ n) (hn' : cSlash ∉ n') (h : pathJoin2 d n = pathJoin2 d' n') : d = d' ∧ n = n' := by
+  cases sh with
+  | E =>
+    simp only [HasShape] at hd hd'
+    subst hd; subst hd'
+    simp [pathJoin2] at h
+    exact ⟨rfl, h⟩
+  | S =>
+    simp only [HasShape] at hd hd'
+    rw [pathJoin2_S _ hd, pathJoin2_S _ hd'] at h
+    obtain ⟨d0, rfl⟩ := endsSlash_true_iff.mp hd
+    obtain ⟨d0', rfl⟩ := endsSlash_true_iff.mp hd'
+    simp only [List.append_assoc, List.singleton_append] at h
+    obtain ⟨h1, h2⟩ := split_unique d0 d0' n n' hn hn' h
+    exact ⟨by rw [h1], h2⟩
+  | N =>
+    simp only [HasShape] at hd hd'
+    rw [pathJoin2_N _ hd.1 hd.2, pathJoin2_N _ hd'.1 hd'.2] at h
+    exact split_unique d d' n n' hn hn' h
+
+/-- The shape after joining a non-empty slash-free name is N. -/
+theorem pathJoin2_shapeN {sh : Shape} {d n : Str} (hd : HasShape sh d) (hne : n ≠ []) (hn : cSlash ∉ n) :
+    HasShape .N (pathJoin2 d n) := by
+  have hnn : endsSlash n = false := endsSlash_slashfree hn
+  cases sh with
+  | E =>
+    simp only [HasShape] at hd; subst hd
+    simp [pathJoin2, HasShape, hne, hnn]
+  | S =>
+    simp only [HasShape] at hd
+    rw [pathJoin2_S _ hd]
+    refine ⟨by simp [hne], ?_⟩
+    rw [endsSlash_append hne]; exact hnn
+  | N =>
+    simp only [HasShape] at hd
+    rw [pathJoin2_N _ hd.1 hd.2]
+    refine ⟨by simp, ?_⟩
+    rw [endsSlash_append (by simp)]
+    have : cSlash :: n = [cSlash] ++ n := rfl
+    rw [this, endsSlash_append hne]; exact hnn
+
+/-- The shape after joining the empty component. -/
+def shapeAfterEmpty : Shape → Shape
+  | .E => .E
+  | .S => .S
+  | .N => .S
+
+theorem pathJoin2_empty_shape {sh : Shape} {d : Str} (hd : HasShape sh d) :
+    HasShape (shapeAfterEmpty sh) (pathJoin2 d []) := by
+  cases sh with
+  | E => simp only [HasShape] at hd; subst hd; simp [pathJoin2, HasShape, shapeAfterEmpty]
+  | S =>
+    simp only [HasShape] at hd
+    rw [pathJoin2_S _ hd]; simpa [HasShape, shapeAfterEmpty] using hd
+  | N =>
+    simp only [HasShape] at hd
+    rw [pathJoin2_N _ hd.1 hd.2]
+    simp [HasShape, shapeAfterEmpty, endsSlash]
+
+theorem pathJoin2_empty_inj {sh : Shape} {d d' : Str} (hd : HasShape sh d) (hd' : HasShape sh d')
+    (h : pathJoin2 d [] = pathJoin2 d' []) : d = d' := by
+  cases sh with
+  | E => simp only [HasShape] at hd hd'; rw [hd, hd']
+  | S =>
+    simp only [HasShape] at hd hd'
+    rw [pathJoin2_S _ hd, pathJoin2_S _ hd'] at h
+    simpa using h
+  | N =>
+    simp only [HasShape] at hd hd'
+    rw [pathJoin2_N _ hd.1 hd.2, pathJoin2_N _ hd'.1 hd'.2] at h
+    exact List.append_cancel_right h
+
+theorem nodup_map_on {α β} {f : α → β} : ∀ {l : List α}, (∀ x ∈ l, ∀ y ∈ l, f x = f y → x = y) → l.Nodup →
+    (l.map f).Nodup := by
+  intro l
+  induction l with
+  | nil => intro _ _; exact List.nodup_nil
+  | cons a rest ih =>
+    intro hinj h
+    have hc := List.nodup_cons.mp h
+    simp only [List.map_cons]
+    apply List.nodup_cons.mpr
+    refine ⟨?_, ih (fun x hx y hy => hinj x (List.mem_cons_of_mem _ hx) y (List.mem_cons_of_mem _ hy)) hc.2⟩
+    intro hmem
+    obtain ⟨b, hb, hfb⟩ := List.mem_map.mp hmem
+    have := hinj b (List.mem_cons_of_mem _ hb) a (List.mem_cons_self ..) hfb
+    exact hc.1 (this ▸ hb)
+
+theorem nodup_of_nodup_map {α β} {f : α → β} : ∀ {l : List α}, (l.map f).Nodup → l.Nodup := by
+  intro l
+  induction l with
+  | nil => intro _; exact List.nodup_nil
+  | cons a rest ih =>
+    intro h
+    simp only [List.map_cons] at h
+    have hc := List.nodup_cons.mp h
+    apply List.nodup_cons.mpr
+    exact ⟨fun hm => hc.1 (List.mem_map.mpr ⟨a, hm, rfl⟩), ih hc.2⟩
+
+theorem inj_of_nodup_map {α β} {f : α → β} : ∀ {l : List α}, (l.map f).Nodup →
+    ∀ x ∈ l, ∀ y ∈ l, f x = f y → x = y := by
+  intro l
+  induction l with
+  | nil => intro _ x hx; cases hx
+  | cons a rest ih =>
+    intro h x hx y hy hxy
+    simp only [List.map_cons] at h
+    have hc := List.nodup_cons.mp h
+    rcases List.mem_cons.mp hx with rfl | hx' <;> rcases List.mem_cons.mp hy with rfl | hy'
+    · rfl
+    · exact absurd (List.mem_map.mpr ⟨y, hy', hxy.symm⟩) hc.1
+    · exact absurd (List.mem_map.mpr ⟨x, hx', hxy⟩) hc.1
+    · exact ih hc.2 x hx' y hy' hxy
+
+/-- A level of matches: no duplicates, one shape. -/
+def Level (sh : Shape) (l : List Str) : Prop := l.Nodup ∧ ∀ d ∈ l, HasShape sh d
+
+theorem level_map_name {sh : Shape} {ms : List Str} {n : Str} (h : Level sh ms) (hne : n ≠ []) (hn : cSlash ∉ n) :
+    Level .N (ms.map fun d => pathJoin2 d n) := by
+  refine ⟨?_, ?_⟩
+  · apply nodup_map_on _ h.1
+    intro x hx y hy hxy
+    exact (pathJoin2_inj (h.2 x hx) (h.2 y hy) hn hn hxy).1
+  · intro x hx
+    obtain ⟨d, hd, rfl⟩ := List.mem_map.mp hx
+    exact pathJoin2_shapeN (h.2 d hd) hne hn
+
+theorem level_filter {sh : Shape} {ms : List Str} (f : Str → Bool) (h : Level sh ms) : Level sh (ms.filter f) :=
+  ⟨h.1.filter _, fun d hd => h.2 d (List.mem_filter.mp hd).1⟩
+
+theorem globDir_level {rd : Reader} (hwf : ReaderWF rd) {base d : Str} {f : Str → Bool} {wantDir : Bool}
+    {sh : Shape} (hd : HasShape sh d) {l : List Str} (h : globDir rd base d f wantDir = .ok l) :
+    Level .N l := by
+  unfold globDir at h
+  simp only at h
+  cases hrd : rd (fullOf base d) with
+  | error e => simp [hrd] at h
+  | ok ents =>
+    simp only [hrd] at h
+    cases h
+    obtain ⟨hnd, hnames⟩ := hwf _ _ hrd
+    refine ⟨?_, ?_⟩
+    · apply nodup_map_on
+      · intro x hx y hy hxy
+        have hx' := (List.mem_filter.mp hx).1
+        have hy' := (List.mem_filter.mp hy).1
+        have hn := (pathJoin2_inj hd hd (hnames x hx').2 (hnames y hy').2 hxy).2
+        -- names are distinct
+        exact inj_of_nodup_map hnd x hx' y hy' hn
+      · exact (nodup_of_nodup_map hnd).filter _
+    · intro x hx
+      obtain ⟨e, he, rfl⟩ := List.mem_map.mp hx
+      have he' := (List.mem_filter.mp he).1
+      exact pathJoin2_shapeN hd (hnames e he').1 (hnames e he').2
+
+theorem mapExcept_level {rd : Reader} (hwf : ReaderWF rd) {base : Str} {f : Str → Bool} {wantDir : Bool} {sh : Shape} :
+    ∀ (ms out : List Str), Level sh ms → mapExcept (fun d => globDir rd base d f wantDir) ms = .ok out →
+      Level .N out := by
+  intro ms
+  induction ms with
+  | nil => intro out _ h; simp only [mapExcept] at h; cases h; exact ⟨List.nodup_nil, by simp⟩
+  | cons d rest ih =>
+    intro out hl h
+    simp only [mapExcept] at h
+    cases hfa : globDir rd base d f wantDir with
+    | error e => simp [hfa] at h
+    | ok la =>
+      simp only [hfa] at h
+      cases hr : mapExcept (fun d => globDir rd base d f wantDir) rest with
+      | error e => simp [hr] at h
+      | ok lr =>
+        simp only [hr] at h
+        cases h
+        have hnd := List.nodup_cons.mp hl.1
+        have hdsh := hl.2 d (List.mem_cons_self ..)
+        have hla := globDir_level hwf hdsh hfa
+        have hlr := ih lr ⟨hnd.2, fun x hx => hl.2 x (List.mem_cons_of_mem _ hx)⟩ hr
+        refine ⟨?_, ?_⟩
+        · apply List.nodup_append.mpr
+          refine ⟨hla.1, hlr.1, ?_⟩
+          intro x hxa y hyr hxy
+          subst hxy
+          obtain ⟨ents, e, h1, h2, _, _, hx⟩ := (globDir_mem hfa x).mp hxa
+          obtain ⟨d', hd', la', hla', hxr'⟩ := (mapExcept_ok _ rest lr hr x).mp hyr
+          obtain ⟨ents', e', h1', h2', _, _, hx'⟩ := (globDir_mem hla' x).mp hxr'
+          have hn := (hwf _ _ h1).2 e h2
+          have hn' := (hwf _ _ h1').2 e' h2'
+          have := (pathJoin2_inj hdsh (hl.2 d' (List.mem_cons_of_mem _ hd')) hn.2 hn'.2 (hx ▸ hx')).1
+          exact hnd.1 (this ▸ hd')
+        · intro x hx
+          rcases List.mem_append.mp hx with hx | hx
+          · exact hla.2 x hx
+          · exact hlr.2 x hx
+
+end ShVerif.C19
+
+namespace ShVerif.C19
+open ShVerif ShVerif.L3
+
+theorem globPart_level {rd : Reader} (hwf : ReaderWF rd) {mk : Matcher} {cfg : Cfg} {base : Str} {wantDir : Bool}
+    {ms out : List Str} {p : Str} {sh : Shape} (hp : cSlash ∉ p) (hns : isGlobStar cfg p = false)
+    (hl : Level sh ms) (h : globPart rd mk cfg base wantDir ms p = .ok out) : ∃ sh', Level sh' out := by
+  unfold globPart at h
+  by_cases hsp : isSpecialPart p = true
+  · simp only [hsp, if_true] at h
+    cases h
+    by_cases hpe : p = []
+    · subst hpe
+      refine ⟨shapeAfterEmpty sh, ?_, ?_⟩
+      · apply nodup_map_on _ hl.1
+        intro x hx y hy hxy
+        exact pathJoin2_empty_inj (hl.2 x hx) (hl.2 y hy) hxy
+      · intro x hx
+        obtain ⟨d, hd, rfl⟩ := List.mem_map.mp hx
+        exact pathJoin2_empty_shape (hl.2 d hd)
+    · exact ⟨.N, level_map_name hl hpe hp⟩
+  · have hsp' : isSpecialPart p = false := by simpa using hsp
+    have hpe : p ≠ [] := by
+      intro h0; subst h0; simp [isSpecialPart] at hsp'
+    simp only [hsp', Bool.false_eq_true, if_false] at h
+    by_cases hm : hasMeta p = true
+    · simp only [hm, Bool.not_true, Bool.false_eq_true, if_false] at h
+      have hgs : ¬ (p = [cStar, cStar] ∧ cfg.globstar = true) := by
+        intro ⟨h1, h2⟩
+        simp [isGlobStar, h1, h2] at hns
+      simp only [hgs, if_false] at h
+      cases hmk : mk cfg.mode p with
+      | panic => simp [hmk] at h
+      | unsupported => simp [hmk] at h
+      | err e => simp [hmk] at h
+      | ok f =>
+        simp only [hmk] at h
+        cases hme : mapExcept (fun d => globDir rd base d f wantDir) ms with
+        | error e => simp [hme] at h
+        | ok l =>
+          simp only [hme] at h
+          cases h
+          exact ⟨.N, mapExcept_level hwf ms out hl hme⟩
+    · have hm' : hasMeta p = false := by simpa using hm
+      simp only [hm', Bool.not_false, if_true] at h
+      cases h
+      exact ⟨.N, level_map_name (level_filter _ hl) hpe hp⟩
+
+theorem globLoop_level {rd : Reader} (hwf : ReaderWF rd) {mk : Matcher} {cfg : Cfg} {base : Str} :
+    ∀ (parts : List Str) (ms out : List Str) (sh : Shape), (∀ p ∈ parts, cSlash ∉ p) →
+      (∀ p ∈ parts, isGlobStar cfg p = false) → Level sh ms →
+      globLoop rd mk cfg base ms parts = .ok out → out.Nodup := by
+  intro parts
+  induction parts with
+  | nil =>
+    intro ms out sh _ _ hl h
+    simp only [globLoop] at h
+    cases h
+    exact hl.1
+  | cons p rest ih =>
+    intro ms out sh hsf hns hl h
+    simp only [globLoop] at h
+    cases hp : globPart rd mk cfg base (!rest.isEmpty) ms p with
+    | error e => simp [hp] at h
+    | ok m' =>
+      simp only [hp] at h
+      obtain ⟨sh', hl'⟩ := globPart_level hwf (hsf p (List.mem_cons_self ..)) (hns p (List.mem_cons_self ..)) hl hp
+      exact ih m' out sh' (fun q hq => hsf q (List.mem_cons_of_mem _ hq))
+        (fun q hq => hns q (List.mem_cons_of_mem _ hq)) hl' h
+
+end ShVerif.C19
+
+namespace ShVerif.C19
+open ShVerif ShVerif.L3
+
+/-! ## the tree reader is well formed on well-formed trees -/
+
+mutual
+  /-- Distinct, non-empty, slash-free names in every directory. -/
+  def NodeWF : Node → Bool
+    | .file => true
+    | .link _ => true
+    | .dir es => entriesWF es
+  def entriesWF : List (Str × Node) → Bool
+    | [] => true
+    | (n, k) :: rest =>
+      !n.isEmpty && !n.contains cSlash && !(rest.map (·.1)).contains n && NodeWF k && entriesWF rest
+end
+
+theorem entriesWF_lookup : ∀ (es : List (Str × Node)) (x : Str) (k : Node),
+    entriesWF es = true → lookupNode es x = some k → NodeWF k = true := by
+  intro es
+  induction es with
+  | nil => intro x k _ h; simp [lookupNode] at h
+  | cons e rest ih =>
+    intro x k hwf h
+    obtain ⟨n, kn⟩ := e
+    simp only [entriesWF, Bool.and_eq_true] at hwf
+    simp only [lookupNode] at h
+    by_cases hn : n = x
+    · simp only [hn, if_true, Option.some.injEq] at h
+      subst h; exact hwf.1.2
+    · simp only [hn, if_false] at h
+      exact ih x k hwf.2 h
+
+theorem find_wf : ∀ (path : List Str) (t n : Node), NodeWF t = true → t.find path = some n → NodeWF n = true := by
+  intro path
+  induction path with
+  | nil => intro t n hwf h; simp only [Node.find, Option.some.injEq] at h; subst h; exact hwf
+  | cons x rest ih =>
+    intro t n hwf h
+    simp only [Node.find] at h
+    cases hc : t.child x with
+    | none => simp [hc] at h
+    | some c =>
+      simp only [hc] at h
+      have hcw : NodeWF c = true := by
+        cases t with
+        | file => simp [Node.child] at hc
+        | link _ => simp [Node.child] at hc
+        | dir es =>
+          simp only [Node.child] at hc
+          simp only [NodeWF] at hwf
+          exact entriesWF_lookup es x c hwf hc
+      exact ih c n hcw h
+
+theorem entriesWF_names : ∀ (es : List (Str × Node)), entriesWF es = true →
+    (es.map (·.1)).Nodup ∧ ∀ e ∈ es, e.1 ≠ [] ∧ cSlash ∉ e.1 := by
+  intro es
+  induction es with
+  | nil => intro _; exact ⟨List.nodup_nil, by simp⟩
+  | cons e rest ih =>
+    intro hwf
+    obtain ⟨n, kn⟩ := e
+    simp only [entriesWF, Bool.and_eq_true, Bool.not_eq_true', List.contains_eq_mem, decide_eq_false_iff_not,
+      List.isEmpty_eq_false_iff] at hwf
+    obtain ⟨⟨⟨⟨h1, h2⟩, h3⟩, _⟩, h5⟩ := hwf
+    obtain ⟨ihn, ihe⟩ := ih h5
+    refine ⟨?_, ?_⟩
+    · simp only [List.map_cons]
+      exact List.nodup_cons.mpr ⟨h3, ihn⟩
+    · intro e he
+      rcases List.mem_cons.mp he with rfl | he
+      · exact ⟨h1, h2⟩
+      · exact ihe e he
+
+theorem readDir_wf (root : Node) (hwf : NodeWF root = true) : ReaderWF (readDir root) := by
+  intro p ents h
+  unfold readDir at h
+  split at h
+  · cases h
+  · split at h
+    · cases h
+    · rename_i rcur _
+      split at h
+      · rename_i es hfind
+        cases h
+        have hd : NodeWF (.dir es) = true := find_wf _ root _ hwf hfind
+        simp only [NodeWF] at hd
+        obtain ⟨hn, he⟩ := entriesWF_names es hd
+        refine ⟨?_, ?_⟩
+        · simpa [List.map_map, Function.comp_def] using hn
+        · intro e hmem
+          obtain ⟨e0, he0, rfl⟩ := List.mem_map.mp hmem
+          exact he e0 he0
+      · cases h
+      · cases h
+
+end ShVerif.C19
